@@ -13,6 +13,7 @@ import Mathlib.Data.Matrix.ColumnRowPartitioned
 import Mathlib.LinearAlgebra.Matrix.NonsingularInverse
 import Mathlib.LinearAlgebra.Matrix.Notation
 import Mathlib.Analysis.Matrix.Normed
+import Mathlib.LinearAlgebra.Matrix.Vec
 import Mathlib.Tactic.Abel
 import Mathlib.Tactic.Linarith
 import Mathlib.Tactic.Ring
@@ -178,6 +179,33 @@ theorem lyapunov_unique (T Sig Om1 Om2 : Matrix n n ℝ) (m : ℕ)
 
 end Unique
 
+
+section Kron
+open Kronecker
+variable {n : Type} [Fintype n] [DecidableEq n]
+variable {K : Type} [CommRing K]
+
+/-- **The Kronecker system the model solves is the Lyapunov equation**: `Ω = TΩTᵀ + Σ ↔ (I − T⊗T) vec Ω = vec Σ`. -/
+theorem lyapunov_iff_kron (T Sig Om : Matrix n n K) :
+    Om = T * Om * Tᵀ + Sig ↔ (1 - T ⊗ₖ T) *ᵥ vec Om = vec Sig := by
+  rw [Matrix.sub_mulVec, Matrix.one_mulVec, kronecker_mulVec_vec, ← vec_sub, vec_inj]
+  exact sub_eq_iff_eq_add'.symm
+
+/-- **Uniqueness of the stationary covariance, algebraic form**: when `I − T⊗T` is non-singular (which is what the
+model's checked solve finds; equivalent to no two eigenvalues of `T` with product 1, in particular `ρ(T) < 1`) the Lyapunov
+equation has at most one solution, and `vec Ω = (I − T⊗T)⁻¹ vec Σ`. -/
+theorem lyapunov_unique_kron (T Sig Om1 Om2 : Matrix n n K)
+    (hdet : IsUnit (1 - T ⊗ₖ T).det)
+    (h1 : Om1 = T * Om1 * Tᵀ + Sig) (h2 : Om2 = T * Om2 * Tᵀ + Sig) :
+    Om1 = Om2 ∧ vec Om1 = (1 - T ⊗ₖ T)⁻¹ *ᵥ vec Sig := by
+  have k1 := (lyapunov_iff_kron T Sig Om1).1 h1
+  have k2 := (lyapunov_iff_kron T Sig Om2).1 h2
+  have inv : ∀ Om : Matrix n n K, (1 - T ⊗ₖ T) *ᵥ vec Om = vec Sig → vec Om = (1 - T ⊗ₖ T)⁻¹ *ᵥ vec Sig := by
+    intro Om h
+    rw [← h, Matrix.mulVec_mulVec, Matrix.nonsing_inv_mul _ hdet, Matrix.one_mulVec]
+  refine ⟨vec_inj.1 ((inv Om1 k1).trans (inv Om2 k2).symm), inv Om1 k1⟩
+
+end Kron
 
 section Scaling
 variable {n e : Type} [Fintype n] [Fintype e] [DecidableEq n]
